@@ -270,6 +270,7 @@ pub fn dispatch(cmd: &str, name: &str, arg: &str) -> Option<String> {
     if name.starts_with("objective.") { return dispatch_objective(cmd, name, arg); }
     if name == "network.gradient" { return dispatch_netgrad(cmd, name, arg); }
     if name == "dropout.leak" { return dispatch_dropout(cmd, name, arg); }
+    if name == "shapes.chain" { return dispatch_chain(cmd, name, arg); }
     if name.starts_with("feedback.") { return dispatch_feedback(cmd, name, arg); }
     if name.starts_with("reshape.") { return dispatch_reshape(cmd, name, arg); }
     if !["conv", "deconv", "pool"].iter().any(|p| name.starts_with(p)) { return None; }
@@ -1067,4 +1068,88 @@ pub fn dispatch_dropout(cmd: &str, name: &str, arg: &str) -> Option<String> {
         if let Err(e) = one(a, s) { return Some(format!("{{\"failed\":true,\"tried\":{},\"input\":{{\"architecture\":{},\"seed\":{}}},\"detail\":{:?}}}", tried, a, s, e)); }
     }}
     Some(format!("{{\"failed\":false,\"tried\":{}}}", tried))
+}
+
+// ------------------------------------------------------------------------------------------------ announced = produced shapes along layer chains (C08)
+fn shape_of(t: &Tensor) -> Vec<usize> {
+    match &t.data { Data::Single(v) => vec![v.len()], Data::Triple(d) => vec![d.len(), d[0].len(), d[0][0].len()], _ => vec![] }
+}
+fn shape_vec(s: &Shape) -> Vec<usize> { match s { Shape::Single(n) => vec![*n], Shape::Triple(a, b, c) => vec![*a, *b, *c], _ => vec![] } }
+/// random layer chains (depth <= 4) with random small valid configurations: whenever the builder accepts the chain, the forward pass must run, every
+/// layer must produce exactly the shape it announced (a spatial layer followed by a dense layer produces the flattened count), and every weight
+/// gradient must have the shape of its parameter
+pub fn chain_one(seed: u64) -> Result<Option<String>, String> {
+    let mut rng = Lcg(seed.wrapping_mul(2147483629).wrapping_add(17));
+    let pick = |rng: &mut Lcg, lo: usize, hi: usize| lo + (rng.next() as usize) % (hi - lo + 1);
+    let spatial_in = rng.next() % 2 == 0;
+    let input = if spatial_in { Shape::Triple(pick(&mut rng, 1, 2), pick(&mut rng, 3, 5), pick(&mut rng, 3, 5)) } else { Shape::Single([4usize, 9, 16][pick(&mut rng, 0, 2)]) };
+    let depth = pick(&mut rng, 1, 4);
+    let mut descr: Vec<(usize, [usize; 8])> = Vec::new();
+    for _ in 0..depth {
+        let kind = pick(&mut rng, 0, 3);
+        descr.push((kind, [pick(&mut rng, 1, 2), pick(&mut rng, 1, 3), pick(&mut rng, 1, 3), pick(&mut rng, 1, 2), pick(&mut rng, 1, 2), pick(&mut rng, 0, 1), pick(&mut rng, 0, 1), pick(&mut rng, 1, 2)]));
+    }
+    let d2 = descr.clone();
+    let inp = input.clone();
+    let built = std::panic::catch_unwind(move || {
+        let mut net = crate::network::Network::new(inp);
+        for (kind, p) in &d2 {
+            match kind {
+                0 => net.dense(p[0] * p[1], Activation::Linear, p[5] == 1, None),
+                1 => net.convolution(p[0], (p[1], p[2]), (p[3], p[4]), (p[5], p[6]), (p[7], 1), Activation::Linear, None),
+                2 => net.deconvolution(p[0], (p[1], p[2]), (p[3], p[4]), (p[5], p[6]), Activation::Linear, None),
+                _ => net.maxpool((p[1].min(2), p[2].min(2)), (p[3], p[4])),
+            }
+        }
+        net
+    });
+    let net = match built { Ok(n) => n, Err(_) => return Ok(None) };        // configuration rejected by the builder: nothing to check
+    // a layer that announces an empty output is a degenerate configuration (no valid kernel placement): not in the property's class
+    for l in net.layers.iter() {
+        let a = match l { crate::network::Layer::Dense(d) => shape_vec(&d.outputs), crate::network::Layer::Convolution(d) => shape_vec(&d.outputs),
+            crate::network::Layer::Deconvolution(d) => shape_vec(&d.outputs), crate::network::Layer::Maxpool(d) => shape_vec(&d.outputs), _ => vec![1] };
+        if a.iter().any(|e| *e == 0) { return Ok(None); }
+    }
+    let what = format!("input {:?}, layers {:?}", shape_vec(&input), descr);
+    let x = match &input { Shape::Single(n) => Tensor::single(vec![1.0; *n]), Shape::Triple(c, h, w) => Tensor::triple(vec![vec![vec![1.0; *w]; *h]; *c]), _ => unreachable!() };
+    let run = std::panic::catch_unwind(std::panic::AssertUnwindSafe(|| net.forward(&x)));
+    let (pre, act, maxp, fbs) = match run { Ok(r) => r, Err(_) => return Err(format!("the builder accepted the chain but the forward pass panicked: {}", what)) };
+    for (j, l) in net.layers.iter().enumerate() {
+        let announced = match l { crate::network::Layer::Dense(d) => shape_vec(&d.outputs), crate::network::Layer::Convolution(d) => shape_vec(&d.outputs),
+            crate::network::Layer::Deconvolution(d) => shape_vec(&d.outputs), crate::network::Layer::Maxpool(d) => shape_vec(&d.outputs), _ => vec![] };
+        let produced = shape_of(&act[j + 1]);
+        let next_dense = j + 1 < net.layers.len() && matches!(net.layers[j + 1], crate::network::Layer::Dense(_));
+        let expect: Vec<usize> = if announced.len() == 3 && next_dense { vec![announced.iter().product()] } else { announced.clone() };
+        if produced != expect { return Err(format!("layer {} announced {:?} (so {:?} is expected here) but produced {:?}: {}", j, announced, expect, produced, what)); }
+    }
+    let nout = act.last().unwrap().get_flat().len();
+    let g = match act.last().unwrap().data { Data::Single(_) => Tensor::single(vec![1.0; nout]), _ => { let s = shape_of(act.last().unwrap()); Tensor::triple(vec![vec![vec![1.0; s[2]]; s[1]]; s[0]]) } };
+    let back = std::panic::catch_unwind(std::panic::AssertUnwindSafe(|| net.backward(g, &pre, &act, &maxp, fbs)));
+    let (wg, _) = match back { Ok(r) => r, Err(_) => return Err(format!("the backward pass panicked on an accepted chain: {}", what)) };
+    let nl = net.layers.len();
+    for (j, l) in net.layers.iter().enumerate() {
+        let g = &wg[nl - 1 - j];
+        match l {
+            crate::network::Layer::Dense(d) => { if let (Data::Double(a), Data::Double(b)) = (&g.data, &d.weights.data) { if a.len() != b.len() || a[0].len() != b[0].len() { return Err(format!("dense weight gradient shape differs from the weights: {}", what)); } } else { return Err(format!("dense weight gradient is not a matrix: {}", what)); } }
+            crate::network::Layer::Convolution(c) => { if let Data::Quadruple(q) = &g.data { let k = shape_of(&c.kernels[0]); if q.len() != c.kernels.len() || q[0].len() != k[0] || q[0][0].len() != k[1] || q[0][0][0].len() != k[2] { return Err(format!("convolution kernel gradient shape differs from the kernels: {}", what)); } } }
+            crate::network::Layer::Deconvolution(c) => { if let Data::Quadruple(q) = &g.data { let k = shape_of(&c.kernels[0]); if q.len() != c.kernels.len() || q[0].len() != k[0] || q[0][0].len() != k[1] || q[0][0][0].len() != k[2] { return Err(format!("deconvolution kernel gradient shape differs from the kernels: {}", what)); } } }
+            _ => {}
+        }
+    }
+    Ok(Some(what))
+}
+pub fn dispatch_chain(cmd: &str, name: &str, arg: &str) -> Option<String> {
+    if name != "shapes.chain" { return None; }
+    if std::env::var("VERIF_SHOW_PANIC").is_err() { std::panic::set_hook(Box::new(|_| {})); }
+    if cmd == "run" {
+        let v: Vec<u64> = arg.split(|c: char| !c.is_ascii_digit()).filter(|x| !x.is_empty()).filter_map(|x| x.parse().ok()).collect();
+        if v.len() != 1 { return None; }
+        return Some(match chain_one(v[0]) { Ok(_) => format!("{{\"failed\":false,\"input\":{{\"seed\":{}}}}}", v[0]), Err(e) => format!("{{\"failed\":true,\"input\":{{\"seed\":{}}},\"detail\":{:?}}}", v[0], e) });
+    }
+    let (mut tried, mut accepted) = (0usize, 0usize);
+    for s in 0..4000u64 {
+        tried += 1;
+        match chain_one(s) { Ok(Some(_)) => accepted += 1, Ok(None) => {}, Err(e) => return Some(format!("{{\"failed\":true,\"tried\":{},\"input\":{{\"seed\":{}}},\"detail\":{:?}}}", tried, s, e)) }
+    }
+    Some(format!("{{\"failed\":false,\"tried\":{},\"accepted_by_the_builder\":{}}}", tried, accepted))
 }
